@@ -154,6 +154,14 @@ mod n {
                     let acc = bvh.intersects(ray).is_some();
                     c.check("C13.build.equiv", acc == direct, || format!("ray {}: accelerated {} exhaustive {}", ri, acc, direct));
                 }
+                // one vertical ray per obstacle, straight down onto its centre: deep trees must find every single leaf
+                for (k, o) in set.iter().enumerate() {
+                    let ctr = o.aabb.center();
+                    let ray = Ray::new(point![ctr.x, ctr.y, 50.0], vector![0.0, 0.0, -1.0]);
+                    let direct = set.iter().any(|x| x.intersects(&ray).is_some());
+                    let acc = bvh.intersects(&ray).is_some();
+                    c.check("C13.build.equiv", acc == direct, || format!("vertical ray onto obstacle {}: accelerated {} exhaustive {}", k, acc, direct));
+                }
                 c.nontrivial(format!("{} {} {}", n, kind, leaf));
                 c.sample(|| format!("n={} kind={} leaf={} built", n, kind, leaf));
             },
